@@ -147,6 +147,16 @@ def gen_cases(tier, seed):
                 s['seed'] = rng.randrange(1 << 30)
                 s['plan'] = {'faults': [{'at': k, 'phase': ph, 'kind': kind, 'tag': 'FAULT-legacy'}]}
                 cases.append(s)
+    # file-system steps of the legacy uploader failing after the upload id was received (the second size query, opening a part)
+    for k in ('t0/fs:size#1', 't0/fs:size#2', 't0/fs:openr#0', 't0/fs:openr#1', 't0/fs:openr#2', 't0/src:read#1'):
+        for size in (20, 27):
+            for conc in (1, 2):
+                s = copy.deepcopy(lbase)
+                s['config']['max_concurrency'] = conc
+                s['transfers'][0]['size'] = size
+                s['seed'] = rng.randrange(1 << 30)
+                s['plan'] = {'faults': [{'at': k, 'phase': 'before', 'kind': 'oserror', 'tag': 'FAULT-legacy-fs'}]}
+                cases.append(s)
     # ... and the same with the sibling part requests held in flight (their responses parked until the process is at rest) while one
     # part fails: the abort has to wait for them
     for conc in (2, 3, 4):
